@@ -1,6 +1,7 @@
 """C09 — a ruleset yields one outcome per rule, in order, each isolated from the others.
 
 Path rules on RuleSet::evaluate_value / RuleSet::evaluate (pre-transform coroutine MIR)."""
+import re
 import evalsum
 from framework import Inconclusive
 from norm import norm, norm_cond, show, short_callee
@@ -35,8 +36,13 @@ def run(res, f, tier):
     ev_fn = find(f, "evaluate", "ruleset::RuleSet")
     import anchors
     A = anchors.resolve(f)
-    eval_rule = [A["eval_rule"]]
-    ER = A["short"]["eval_rule"]
+    # the per-rule evaluation is whatever crate-local function(s) evaluate_value calls that reach the recursive
+    # evaluator (Expr::eval_rule today); they stay opaque here
+    evaluator_fn = A["evaluator"][0]
+    reaches_evaluator = set(d for d, b in f.bodies.items() if not b.get("parent") and b["kind"] in ("Fn", "AssocFn")
+                            and d not in (ev_value, ev_fn) and evaluator_fn in evalsum.reachable_local(f, [d])
+                            and (b.get("impl") or {}).get("self_s") != "ruleset::RuleSet")     # RuleSet's own helpers are part of the loop: inlined
+    PER_RULE = set(short_callee(d) for d in reaches_evaluator)
     outcome = f.adts.get("ruleset::Outcome")
     rule_adt = f.adts.get("ruleset::rule::Rule")
     if not outcome or not rule_adt:
@@ -63,60 +69,70 @@ def run(res, f, tier):
             expr_idx = [fl["name"] for fl in rule_adt["variants"][0]["fields"]].index("expr")
     ob(expr_idx is not None, "C09|rule-expr", "Rule::expr() must return the rule's own expression field")
     # ---- evaluate_value
-    paths, it = evalsum.run_async_fn(f, ev_value, ["self", "facts"], opaque=lambda p: p == eval_rule[0], loop_bound=UNROLL)
-    got = set()
+    paths, it = evalsum.run_async_fn(f, ev_value, ["self", "facts"], opaque=lambda p: p in reaches_evaluator, loop_bound=UNROLL)
+    got = []
     for s, rv in paths:
-        got.add((frozenset(norm_cond(c) for c in s.conds), tuple(events_of(s)), show(norm(it.resolve(s, rv)))))
-    sources = ["into_iter([Rule]::iter(self.rules))", "into_iter(self.rules)", "[Rule]::iter(self.rules)"]
+        got.append((dict(norm_cond(c) for c in s.conds), events_of(s), show(norm(it.resolve(s, rv))), set(s.flags)))
+    # every path: a plain forward iteration over self.rules; per item exactly one per-rule evaluation of that rule's own
+    # expression whose awaited result is stored (not branched on, not propagated) together with that rule; nothing
+    # else decides the path; the result is Ok(all outcomes, in order)
+    SOURCES = ("into_iter([Rule]::iter(self.rules))", "into_iter(self.rules)", "[Rule]::iter(self.rules)")
+    bad = []
     match = None
-    for src in sources:
-        want = set()
-        for k in range(UNROLL + 1):
-            conds, events = [], [("call", "BTreeMap::new"), ("call", "Vec::new")]
-            if "]::iter(" in src:
-                events.append(("call", "[Rule]::iter", "self.rules"))
-            results = "Vec::new()"
-            for i in range(k):
-                el = "elem%d(%s)" % (i, src)
-                call = ER + "(%s.%d, self, BTreeMap::new(), facts)" % (el, expr_idx if expr_idx is not None else 0)
-                vals = {"value": "await(%s)" % call, "rule": el}
-                oc = "Outcome(%s)" % ", ".join(vals[n] for n in ofields)
-                conds.append(("next(%s, #%d)" % (src, i), "ok"))
-                events += [("next", src, i), ("call", ER, "%s.%d" % (el, expr_idx or 0), "self", "BTreeMap::new()", "facts"),
-                           ("call", "Vec::push", results, oc)]
-                results = "push(%s, %s)" % (results, oc)
-            conds.append(("next(%s, #%d)" % (src, k), "fails"))
-            events.append(("end", src, k))
-            want.add((frozenset(conds), tuple(events), "Ok(%s)" % results))
-        # the order of the two constructor calls before the loop is irrelevant
-        def relax(ps):
-            # which cache object is handed to the per-rule evaluation is C11's concern, not C09's
-            import re
-            def cache_free(x):
-                return re.sub(r"(" + re.escape(ER) + r"\([^,]*, self, )[\w:<>]+\(\)", r"\1CACHE", x) if isinstance(x, str) else x
-            out = set()
-            for c, evs, r in ps:
-                evs2 = []
-                for e in evs:
-                    if e[0] == "call" and len(e) == 2:
-                        continue      # constructors without arguments (the result list, the cache)
-                    if e[0] == "call" and e[1] == ER:
-                        e = e[:4] + ("CACHE",) + e[5:]
-                    evs2.append(tuple(cache_free(x) for x in e))
-                out.add((c, tuple(evs2), cache_free(r)))
-            return out
-        if relax(got) == relax(want):
-            match = src
-            break
-    if match is None:
-        def fmt(ps):
-            return [{"when": sorted("%s %s" % c for c in cs), "events": [" ".join(str(x) for x in e) for e in ev], "result": r} for cs, ev, r in sorted(ps, key=repr)]
-        ob(False, "C09|evaluate_value",
-           "evaluate_value must push exactly one Outcome{value: result of evaluating that rule's expression (stored, not propagated), rule: that rule} per rule, "
-           "in the order of the rules, sharing one fresh cache, and return Ok(all outcomes)",
-           {"found_paths": fmt(got)[:4], "expected_paths (one accepted iterator spelling)": fmt(want)[:4]})
-    else:
-        ob(True, "C09|evaluate_value", "")
+    seen_k = set()
+    for conds, events, ret, flags in got:
+        srcs = sorted(set(e[1] for e in events if e[0] in ("next", "end")))
+        if len(srcs) != 1 or srcs[0] not in SOURCES:
+            bad.append(("the rules are not visited by one plain forward iteration over self.rules", srcs))
+            continue
+        src = match = srcs[0]
+        k = sum(1 for e in events if e[0] == "next")
+        other = [c for c in conds if not c.startswith("next(%s, #" % src)]
+        if other:
+            bad.append(("the path depends on something other than the list of rules (a failure or a rule's result decides what happens to the other rules)", other[:3]))
+            continue
+        if "loop_bound_hit" in flags and conds.get("next(%s, #%d)" % (src, k)) != "fails":
+            continue
+        if not (all(conds.get("next(%s, #%d)" % (src, i)) == "ok" for i in range(k)) and conds.get("next(%s, #%d)" % (src, k)) == "fails"):
+            bad.append(("iteration conditions", conds))
+            continue
+        results = None
+        ok_path = True
+        pos = 0
+        evs = [e for e in events if e[0] in ("next", "end") or (e[0] == "call" and (e[1] in PER_RULE or e[1] == "Vec::push"))]
+        for i in range(k):
+            el = "elem%d(%s)" % (i, src)
+            expr_arg = "%s.%d" % (el, expr_idx if expr_idx is not None else 0)
+            if pos + 2 >= len(evs) or evs[pos] != ("next", src, i):
+                ok_path = False
+                break
+            call = evs[pos + 1]
+            if not (call[0] == "call" and call[1] in PER_RULE and expr_arg in call[2:]):
+                ok_path = False
+                break
+            push = evs[pos + 2]
+            vals = {"value": "await(%s(%s))" % (call[1], ", ".join(call[2:])), "rule": el}
+            oc = "Outcome(%s)" % ", ".join(vals[n] for n in ofields)
+            if not (push[0] == "call" and push[1] == "Vec::push" and len(push) == 4 and push[3] == oc and (results is None or push[2] == results)):
+                ok_path = False
+                break
+            results = "push(%s, %s)" % (push[2], oc)
+            pos += 3
+        if ok_path and k == 0:
+            results = next((r_ for r_ in ("Vec::new()",) if ret == "Ok(%s)" % r_), None) or (ret[3:-1] if re.fullmatch(r"Ok\(Vec::with_capacity\(.*\)\)", ret) else None)
+            ok_path = results is not None
+        if ok_path and not (pos < len(evs) and evs[pos] == ("end", src, k) and pos + 1 == len(evs)):
+            ok_path = False
+        if ok_path and ret != "Ok(%s)" % results:
+            ok_path = False
+        if not ok_path:
+            bad.append(("the path does not push exactly one Outcome{value: that rule's awaited result, rule: that rule} per rule and return Ok(all of them)",
+                        {"events": [" ".join(map(str, e)) for e in evs][:8], "result": ret[:200]}))
+        else:
+            seen_k.add(k)
+    ob(not bad and seen_k >= set(range(UNROLL + 1)), "C09|evaluate_value",
+       "evaluate_value must push exactly one Outcome{value: result of evaluating that rule's expression (stored, not propagated), rule: that rule} per rule, "
+       "in the order of the rules, and return Ok(all outcomes): %s" % bad[:2], {"problems": bad[:4]})
     # ---- evaluate: serialise, fail only there, delegate
     paths, it = evalsum.run_async_fn(f, ev_fn, ["self", "facts"], opaque=lambda p: p == ev_value)
     got = sorted((tuple(sorted(norm_cond(c) for c in s.conds)), tuple(events_of(s)), show(norm(it.resolve(s, rv)))) for s, rv in paths)
@@ -133,7 +149,11 @@ def run(res, f, tier):
     import c11
     from framework import Result
     r11 = Result("C11", "other")
-    c11.run(r11, f, tier)
+    try:
+        c11.run(r11, f, tier)
+    except Inconclusive as e:
+        # C11 could not decide on this tree: C09's own findings still stand; without any, C09 is inconclusive too
+        res.floor_failures.append("imported cache-transparency verdict unavailable: %s" % e)
     poisoning = [v for v in r11.violations if v["key"] in ("C11|same-key", "C11|key-content", "C11|hit", "C11|miss-ok", "C11|failures-not-cached", "C11|right-function")]
     ob(not poisoning, "C09|shared-cache-transparent",
        "the function cache shared by the rules of one evaluation is not transparent, so a rule's outcome can depend on the other rules: %s" % [v["what"][:160] for v in poisoning],
@@ -142,7 +162,10 @@ def run(res, f, tier):
     # outcomes is the order in which the builder stored the rules.  Those storage rules are C15's; imported.
     import c15
     r15 = Result("C15", "other")
-    c15.run(r15, f, tier)
+    try:
+        c15.run(r15, f, tier)
+    except Inconclusive as e:
+        res.floor_failures.append("imported rule-order verdict unavailable: %s" % e)
     order = [v for v in r15.violations if v["key"] in ("C15|with_rule", "C15|with_rules", "C15|build")]
     ob(not order, "C09|rules-stored-in-order",
        "the builder does not keep the rules in the order they were added, so the outcomes are not in that order either: %s" % [v["what"][:160] for v in order],
